@@ -33,6 +33,9 @@ pub trait Backend: Sync + Send {
     fn shutdown(&self, stream: usize, how: std::net::Shutdown) -> io::Result<()>;
     fn dup(&self, stream: usize) -> io::Result<usize>;
     fn close(&self, stream: usize);
+    /// The code under test did something the simulator cannot model; the run is abandoned
+    /// (reported as a harness error, never as a verdict).
+    fn unsupported(&self, what: &str) -> !;
 }
 
 static BACKEND: OnceLock<&'static dyn Backend> = OnceLock::new();
@@ -89,6 +92,18 @@ pub mod sync {
 
     impl<T: ?Sized> Mutex<T> {
         pub fn lock(&self) -> LockResult<MutexGuard<'_, T>> {
+            if std::thread::panicking() {
+                // a lock taken from a destructor while this thread unwinds: all simulated
+                // threads share one OS thread, so this must not block or switch
+                return match self.0.try_lock() {
+                    Ok(guard) => Ok(guard),
+                    Err(TryLockError::Poisoned(e)) => Err(e),
+                    Err(TryLockError::WouldBlock) => match super::backend() {
+                        Some(b) => b.unsupported("a lock that another thread holds was requested while a panic unwinds"),
+                        None => panic!("rws_verif: contended lock during unwind"),
+                    },
+                };
+            }
             super::sync_point();
             self.0.lock()
         }
